@@ -437,6 +437,15 @@ class ColorValue(Value):
                             raw.append(int(255 * item.value.value / 100))
                         check += 'P'
 
+                if len(raw) not in (3, 4):
+                    # input ended inside the function or components are missing
+                    self.wellformed = False
+                    self._log.error(
+                        'ColorValue has invalid %s) parameters: '
+                        '%s (N=Number, P=Percentage)' % (functiontype, check)
+                    )
+                    return
+
                 if HSL:
                     # convert to rgb
                     # h is 360 based (circle)
